@@ -7,6 +7,7 @@ import RbV.Lemmas.QGramExact
 import RbV.Lemmas.QGramMatches
 import RbV.Lemmas.QGramIndex
 import RbV.Lemmas.QGramExactModel
+import RbV.Thm.GenSrcQGrams
 import RbV.Lemmas.KChainFwd
 import RbV.Lemmas.LcskppFinal
 import RbV.Lemmas.SdpkppUnion
@@ -78,6 +79,47 @@ theorem rev_qgrams_mirror (alpha : List Nat) (q : Nat) (text : List Nat) (hq : 0
 
 example : qgramsModel [65, 67, 71, 84, 97, 99, 103, 116] 2 [65, 67, 71, 84] = [1, 10, 19] ∧
     revQgramsModel [65, 67, 71, 84, 97, 99, 103, 116] 2 [65, 67, 71, 84] = [19, 10, 1] := by decide
+
+/-! ### the source text of the q-gram iterators (translated on every run, `Gen/SrcQGrams.lean`)
+
+`tools/rs2lean.py` translates `qgram_push`, `QGrams::next`, `RankTransform::qgrams` and the reverse counterparts; abstract
+parameters: `rankGet` (= `RankTransform::get`, translated and proved for C20; here any function that returns the model's
+rank on the symbols of the text), `ranksLen` (= `self.ranks.len()`), `ceilLog2` (= `(n as f32).log2().ceil() as u32`: the
+`f32` computation stays outside, hypothesis `ceilLog2 ranksLen = bitsFor |alpha|`).  `GenSrcQGrams.collectNext` calls the
+translated `next` until it returns `None`.  `Rs.Res.ok v` = no panic, result `v`. -/
+
+/-- `qgram_push` as written in the source is the model's `pushFwd` (`<<=`, `|=`, `&= mask` on 64-bit words) -/
+theorem qgram_push_source_eq_model (rg : Nat → Rs.Res Nat) (cl : Nat → Nat) (rl qg bits mask a : Nat) (hb : bits < 64) :
+    Gen.SrcQGrams.qgramPush rg cl rl qg bits mask a = Rs.Res.ok (pushFwd bits mask qg a) :=
+  GenSrcQGrams.qgramPush_eq_model rg cl rl qg bits mask a hb
+
+/-- **`RankTransform::qgrams` + `QGrams::next` as written in the source = the reference codes**: for every alphabet,
+`q ≥ 1` with `q·bits ≤ 64` and every text over the alphabet, the translated constructor passes its assertions, computes
+the model's mask, and the translated iterator yields exactly `qgramsModel = fwdCodes` -/
+theorem qgrams_source_eq_model (alpha : List Nat) (rg : Nat → Rs.Res Nat) (cl : Nat → Nat) (rl q : Nat) (text : List Nat)
+    (hq : 0 < q) (hqb : q * bitsFor alpha.length ≤ 64) (hb : bitsFor alpha.length < 64)
+    (hcl : cl rl = bitsFor alpha.length) (ht : ∀ c ∈ text, c ∈ alpha) (hrg : ∀ c ∈ text, rg c = Rs.Res.ok (rank alpha c))
+    (fuel : Nat) (hf : text.length < fuel) :
+    (do let st ← Gen.SrcQGrams.qgrams rg cl rl q text
+        GenSrcQGrams.collectNext (fun t g => Gen.SrcQGrams.next rg cl rl t st.2.2.1 st.2.2.2.1 g) fuel st.1 st.2.2.2.2)
+      = Rs.Res.ok (fwdCodes alpha q text) := by
+  rw [GenSrcQGrams.qgrams_collect_eq_model (rank alpha) rg cl rl q _ text hq hqb hb hcl hrg fuel hf]
+  exact congrArg Rs.Res.ok (qgrams_model_refines alpha q text hq hqb ht)
+
+/-- **`RankTransform::rev_qgrams` + `RevQGrams::next` as written in the source** yield the reference codes in reverse -/
+theorem rev_qgrams_source_eq_model (alpha : List Nat) (rg : Nat → Rs.Res Nat) (cl : Nat → Nat) (rl q : Nat)
+    (text : List Nat) (hq : 0 < q) (hqb : q * bitsFor alpha.length ≤ 64) (hb : bitsFor alpha.length < 64)
+    (hcl : cl rl = bitsFor alpha.length) (ht : ∀ c ∈ text, c ∈ alpha) (hrg : ∀ c ∈ text, rg c = Rs.Res.ok (rank alpha c))
+    (fuel : Nat) (hf : text.length < fuel) :
+    (do let st ← Gen.SrcQGrams.revQgrams rg cl rl q text
+        GenSrcQGrams.collectNext (fun t g => Gen.SrcQGrams.nextRev rg cl rl t st.2.2.1 st.2.2.2.1 g) fuel st.1 st.2.2.2.2)
+      = Rs.Res.ok (fwdCodes alpha q text).reverse := by
+  have hR : ∀ c ∈ text, rank alpha c < 2 ^ bitsFor alpha.length := fun c hc =>
+    Nat.lt_of_lt_of_le (rank_lt_length (ht c hc)) (le_two_pow_bitsFor _)
+  rw [GenSrcQGrams.revQgrams_collect_eq_model (rank alpha) rg cl rl q _ text hq hqb hb hcl hrg hR fuel hf]
+  have h := rev_qgrams_mirror alpha q text hq hqb ht
+  rw [qgrams_model_refines alpha q text hq hqb ht] at h
+  exact congrArg Rs.Res.ok h
 
 /-! ## q-gram index: position lists -/
 
